@@ -1,7 +1,10 @@
 // The subset of `planner::Expr` that row_group_pruning.rs can meet, with the real variant and field names.
 // BinaryOp / UnaryOp / ScalarValue / Column above this line are copied VERBATIM from /repo's current
 // src/planner/logical_expr.rs and src/planner/schema.rs by the runner on every run.
+// repr(u8): an explicit tag byte instead of a niche-packed discriminant, so that CBMC reads the variant of a
+// concretely shaped predicate as a constant and does not explore the arms of other variants
 #[derive(Debug, Clone, PartialEq)]
+#[repr(u8)]
 pub enum Expr {
     Column(Column),
     Literal(ScalarValue),
